@@ -32,6 +32,7 @@ func runC05(c *Ctx) {
 	}
 
 	// ---- R1 key-family symmetry
+	checkKeyFamilySymmetry(c, "C05.R1", saveBlock, rmBlock)
 	type fam struct {
 		key  string
 		op   DBOp
@@ -47,53 +48,6 @@ func runC05(c *Ctx) {
 			out[op.Family] = fam{op.Key.String(), op, ff.FactsAt(op.Call.Block())}
 		}
 		return out
-	}
-	sets, dels := collect(saveBlock, "Set"), collect(rmBlock, "Del")
-	var fams []string
-	for f := range sets {
-		fams = append(fams, f)
-	}
-	sort.Strings(fams)
-	n := 0
-	for _, f := range fams {
-		if f == "blockchain.dbPrefixFinalizedHeight" {
-			continue // monotone marker: deliberately not undone (C04)
-		}
-		n++
-		d, ok := dels[f]
-		c.Require("C05.R1 set-has-inverse-del", "saveBlock Set "+f+" ⇔ removeBlock Del", p.InstrPos(sets[f].op.Call),
-			"removeBlock deletes the family saveBlock sets", ok, "")
-		if ok {
-			c.Require("C05.R1 same-key-expression", "saveBlock/removeBlock "+f, p.InstrPos(d.op.Call),
-				"Del key expression equals the Set key expression (same block-relative key)", normIter(d.key) == normIter(sets[f].key), "set: "+sets[f].key+"\ndel: "+d.key)
-			// a Del must not be guarded by a condition the Set does not have
-			// (e.g. deleting only when a list is non-empty is fine only if the Set is guarded the same way)
-			seenCond := map[string]bool{}
-			for _, df := range d.cond {
-				ck := normFact(df)
-				if k, r, dd, ok := canonCmp(df); ok {
-					ck = fmt.Sprintf("%s %s %d", k, r, dd)
-				}
-				if seenCond[ck] {
-					continue
-				}
-				seenCond[ck] = true
-				has := false
-				for _, sf := range sets[f].cond {
-					if factImplies(sf, df) {
-						has = true
-					}
-				}
-				c.Require("C05.R1 del-not-more-guarded-than-set", "removeBlock Del "+f+" under "+ck, p.InstrPos(d.op.Call),
-					"every condition guarding the Del also guards the Set", has, "Del guarded by "+df.String())
-			}
-		}
-	}
-	c.MinInstances("C05.R1 set-has-inverse-del", n, 6)
-	for f := range dels {
-		if _, ok := sets[f]; !ok {
-			c.Require("C05.R1 del-has-set", "removeBlock Del "+f, p.InstrPos(dels[f].op.Call), "removeBlock deletes only families saveBlock sets", false, "")
-		}
 	}
 	// temp family
 	tempSet := collect(rmBlock, "Set")
@@ -518,5 +472,75 @@ func checkRevertAlgebra(c *Ctx, revert *ssa.Function) {
 	}
 	for f := range want {
 		c.Require("C05.R3 revert-algebra", "RevertDiff handles Diff."+f, p.Pos(revert.Pos()), "every diff class is reverted", seen[f], "")
+	}
+}
+
+// checkKeyFamilySymmetry: every key family saveBlock sets is deleted by removeBlock under the
+// same key expression and under no stronger condition (rp: rule prefix, "C05.R1" / "C13.R9").
+func checkKeyFamilySymmetry(c *Ctx, rp string, saveBlock, rmBlock *ssa.Function) {
+	p := c.P
+	// ---- R1 key-family symmetry
+	type fam struct {
+		key  string
+		op   DBOp
+		cond []Fact
+	}
+	collect := func(fn *ssa.Function, kind string) map[string]fam {
+		ff := factsOf(fn)
+		out := map[string]fam{}
+		for _, op := range DBOps(fn) {
+			if op.Kind != kind || op.Family == "" {
+				continue
+			}
+			out[op.Family] = fam{op.Key.String(), op, ff.FactsAt(op.Call.Block())}
+		}
+		return out
+	}
+	sets, dels := collect(saveBlock, "Set"), collect(rmBlock, "Del")
+	var fams []string
+	for f := range sets {
+		fams = append(fams, f)
+	}
+	sort.Strings(fams)
+	n := 0
+	for _, f := range fams {
+		if f == "blockchain.dbPrefixFinalizedHeight" {
+			continue // monotone marker: deliberately not undone (C04)
+		}
+		n++
+		d, ok := dels[f]
+		c.Require(rp+" set-has-inverse-del", "saveBlock Set "+f+" ⇔ removeBlock Del", p.InstrPos(sets[f].op.Call),
+			"removeBlock deletes the family saveBlock sets", ok, "")
+		if ok {
+			c.Require(rp+" same-key-expression", "saveBlock/removeBlock "+f, p.InstrPos(d.op.Call),
+				"Del key expression equals the Set key expression (same block-relative key)", normIter(d.key) == normIter(sets[f].key), "set: "+sets[f].key+"\ndel: "+d.key)
+			// a Del must not be guarded by a condition the Set does not have
+			// (e.g. deleting only when a list is non-empty is fine only if the Set is guarded the same way)
+			seenCond := map[string]bool{}
+			for _, df := range d.cond {
+				ck := normFact(df)
+				if k, r, dd, ok := canonCmp(df); ok {
+					ck = fmt.Sprintf("%s %s %d", k, r, dd)
+				}
+				if seenCond[ck] {
+					continue
+				}
+				seenCond[ck] = true
+				has := false
+				for _, sf := range sets[f].cond {
+					if factImplies(sf, df) {
+						has = true
+					}
+				}
+				c.Require(rp+" del-not-more-guarded-than-set", "removeBlock Del "+f+" under "+ck, p.InstrPos(d.op.Call),
+					"every condition guarding the Del also guards the Set", has, "Del guarded by "+df.String())
+			}
+		}
+	}
+	c.MinInstances(rp+" set-has-inverse-del", n, 6)
+	for f := range dels {
+		if _, ok := sets[f]; !ok {
+			c.Require(rp+" del-has-set", "removeBlock Del "+f, p.InstrPos(dels[f].op.Call), "removeBlock deletes only families saveBlock sets", false, "")
+		}
 	}
 }
